@@ -165,7 +165,7 @@ def r14_4_tables(U, rep):
   rep.stat('dispatch_tables', n)
 
 
-def loader_fields(U, rep, rule='R14.4', prefix=None, label='field:'):
+def loader_fields(U, rep, rule='R14.4', prefix=None, label='field:', floor=None):
   """Definition match ON VALUES: brax.io.mjcf.load_model is abstractly executed (braxlint/loader.py) on mock MuJoCo
   models whose integer / flag fields are concrete and whose real-valued fields are symbolic; every field of the
   System it returns equals the reference built from the mjModel layout -- however the loader is written."""
@@ -175,7 +175,7 @@ def loader_fields(U, rep, rule='R14.4', prefix=None, label='field:'):
   by = {}
   for mock_name, path, ok in res:
     by.setdefault(path, []).append((mock_name, ok))
-  if len([p for p in by if not p.startswith('structure')]) < (8 if prefix else 40) and all(ok for v in by.values() for _, ok in v):
+  if len([p for p in by if not p.startswith('structure')]) < (floor if floor is not None else 8 if prefix else 40) and all(ok for v in by.values() for _, ok in v):
     raise AnalysisError('%s: only %d loader fields compared' % (rule, len(by)))
   for path in sorted(by):
     bad = [m for m, ok in by[path] if not ok]
